@@ -243,10 +243,14 @@ func (p *Parser) led(tokenType tokType, node ASTNode) (ASTNode, error) {
 		right, err := p.parseExpression(bindingPowers[tAnd])
 		return ASTNode{nodeType: ASTAndExpression, children: []ASTNode{node, right}}, err
 	case tLparen:
+		// A call is an unquoted identifier immediately followed by "(".
+		if node.nodeType != ASTField || p.lookaheadToken(-2).tokenType != tUnquotedIdentifier {
+			return ASTNode{}, p.syntaxErrorToken("Only an unquoted identifier can be called as a function", p.lookaheadToken(-1))
+		}
 		name := node.value
 		var args []ASTNode
 		for p.current() != tRparen {
-			expression, err := p.parseExpression(0)
+			expression, err := p.parseFunctionArg()
 			if err != nil {
 				return ASTNode{}, err
 			}
@@ -386,11 +390,7 @@ func (p *Parser) nud(token token) (ASTNode, error) {
 	case tCurrent:
 		return ASTNode{nodeType: ASTCurrentNode}, nil
 	case tExpref:
-		expression, err := p.parseExpression(bindingPowers[tExpref])
-		if err != nil {
-			return ASTNode{}, err
-		}
-		return ASTNode{nodeType: ASTExpRef, children: []ASTNode{expression}}, nil
+		return ASTNode{}, p.syntaxErrorToken("An expression reference is only allowed as a function argument", token)
 	case tNot:
 		expression, err := p.parseExpression(bindingPowers[tNot])
 		if err != nil {
@@ -411,6 +411,20 @@ func (p *Parser) nud(token token) (ASTNode, error) {
 	}
 
 	return ASTNode{}, p.syntaxErrorToken("Invalid token: "+token.tokenType.String(), token)
+}
+
+// parseFunctionArg parses one function argument: an expression or an
+// expression reference (&expr), which is only legal in this position.
+func (p *Parser) parseFunctionArg() (ASTNode, error) {
+	if p.current() != tExpref {
+		return p.parseExpression(0)
+	}
+	p.advance()
+	expression, err := p.parseExpression(bindingPowers[tExpref])
+	if err != nil {
+		return ASTNode{}, err
+	}
+	return ASTNode{nodeType: ASTExpRef, children: []ASTNode{expression}}, nil
 }
 
 func (p *Parser) parseMultiSelectList() (ASTNode, error) {
